@@ -11,6 +11,12 @@ pub fn parse_term(s: &str) -> Option<Term> {
         return Some(Term::Eof);
     }
     let k = s.strip_prefix("err:")?;
+    // `err:Kind+<hex>`: a ONE-SHOT fault; <hex> is what the transport would deliver afterwards
+    let (k, after) = match k.split_once('+') {
+        Some((k, h)) => (k, Some(crate::fmt::unhex(h)?)),
+        None => (k, None),
+    };
+    crate::sio::AFTER_FAULT.with(|a| *a.borrow_mut() = after);
     io_kind_of(k).map(Term::Err)
 }
 
